@@ -18,6 +18,7 @@ package main
 
 import (
 	"bytes"
+	"errors"
 	"fmt"
 	"io"
 	"os"
@@ -60,6 +61,7 @@ func init() {
 	}
 	// implementation-only ops (witnesses of findings, replays)
 	extraOps["scan.auto"] = func(a []sexp) string { return c07Scan(decBytes(a[0])).String() }
+	extraOps["scan.fail"] = func(a []sexp) string { return c07ScanFrom(decBytes(a[0]), 4).String() }
 	extraOps["insdc.table"] = func(a []sexp) string { return c07Table(decBytes(a[0])) }
 }
 
@@ -173,6 +175,8 @@ func c07ScanFrom(data []byte, mode int) scanResult {
 			rd = iotest.DataErrReader(&chunkReader{data: data, sizes: []int{7, 1, 13, 64, 3}})
 		case 3:
 			rd = &chunkReader{data: data, sizes: []int{4095, 4097, 1, 4096}}
+		case 4: // all the data, then an error that is NOT io.EOF (a failing disk, a directory on stdin)
+			rd = io.MultiReader(bytes.NewReader(data), iotest.ErrReader(errors.New("read error")))
 		}
 		sc := seqio.NewAutoScanner(rd)
 		n := 0
@@ -378,6 +382,17 @@ func (c *c07Ctx) scanCase(class string, data []byte, mustFail bool) scanResult {
 					Op: op, Got: alt.String(), Want: res.String()})
 				break
 			}
+		}
+	}
+	// a reader that FAILS behind these bytes (an error other than io.EOF): the scan ends with an
+	// error, whatever came before — also when the failure comes exactly where a record would begin
+	// (seeded change W7-1: the failed read taken for the end of the stream)
+	if len(data) < 400 || c.nScan%9 == 0 {
+		bad := c07ScanFrom(data, 4)
+		r.count("scan/reader-fails/" + bad.verdict)
+		if bad.verdict != "ERR" && bad.verdict != "PANIC" && bad.verdict != "HANG" {
+			r.fail(Failure{Oracle: "a reader that fails with an error other than io.EOF makes the scan end with an error (" + class + ")",
+				Op: "scan.fail " + encBytes(data), Got: bad.String(), Want: "ERR"})
 		}
 	}
 	facts := c07Facts(data)
